@@ -119,6 +119,11 @@ func runSemantic(c *core.Ctx, t target, cases []*SemCase, opts []string, cls row
 			continue
 		}
 		for _, o := range opts {
+			// switching off the zero-initialisation of workgroup memory preserves the meaning of every program
+			// except those that read a workgroup variable before writing it
+			if o == "nozero" && cs.Family == "zeroinit" && strings.Contains(cs.Desc, "workgroup") {
+				continue
+			}
 			jobs = append(jobs, job{cs, o})
 		}
 	}
